@@ -55,6 +55,7 @@ def run(prog, tier):
     nist(prog, chk, aw, zmax)
     nuclides(prog, chk, names, zmax)
     elements(prog, chk)
+    sorted_twin(prog, chk)
     crystals(prog, chk, zmax, tier)
     access_paths(prog, chk)
     return chk
@@ -396,6 +397,71 @@ def generated_crystals(prog, chk, gen, cr):
                    'stored volume %s is not positive' % vol, why='volume %g > 0' % vol)
 
 
+def sorted_twin(prog, chk):
+    """MendelArraySorted is built by the generator (XRayInitFromPath, src/xrayfiles.c): copy every entry of MendelArray, then qsort the
+    WHOLE array by name; the parser finds symbols with bsearch over the WHOLE array.  Decided on the calls: the copy loop runs over
+    [0, extent), qsort and every bsearch get the array's full extent and its element size.  (The generated table itself is compared
+    with MendelArray in the thorough tier.)"""
+    from rules.common import full_range
+    from xvlib.facts import strip_casts
+    g = prog.global_def('MendelArraySorted')
+    src = prog.global_def('MendelArray')
+    m = re.search(r'\[(\d+)\]', g.get('T', ''))
+    m2 = re.search(r'\[(\d+)\]', src.get('T', ''))
+    if not m or not m2:
+        raise AnalysisBroken('extent of MendelArraySorted / MendelArray not found (%s, %s)' % (g.get('T'), src.get('T')))
+    ext = int(m.group(1))
+    chk.decide(ext == int(m2.group(1)), 'mendel-twin-construction', 'src/xrayglob.c', 'MendelArraySorted', 'extent', 'src/xrayglob.c:%d' % g['ln'],
+               'MendelArraySorted has %d entries, MendelArray %s' % (ext, m2.group(1)), why='both tables have %d entries' % ext)
+    elem = re.sub(r'\s*\[\d+\]$', '', g['T']).strip()
+    nq = nb = 0
+    for f in prog.src_funcs():
+        if not f['unit'].startswith('src/'):
+            continue
+        for c in calls_in(f['body']):
+            if c.get('callee') not in ('qsort', 'bsearch'):
+                continue
+            a = c['args']
+            arr, n, size = (a[0], a[1], a[2]) if c['callee'] == 'qsort' else (a[1], a[2], a[3])
+            if show(strip_casts(arr)).lstrip('&(').rstrip(')') .split('[')[0] != 'MendelArraySorted':
+                continue
+            nq += c['callee'] == 'qsort'
+            nb += c['callee'] == 'bsearch'
+            sz = strip_casts(size)
+            ok = n.get('v') == ext and sz.get('k') == 'UnaryExprOrTypeTraitExpr' and (sz.get('argT') or '').replace('const ', '').strip() == elem
+            chk.decide(ok, 'mendel-twin-construction', f['unit'], f['name'], '%s@%d' % (c['callee'], c['ln']), '%s:%d' % (f['rel'], c['ln']),
+                       '%s over MendelArraySorted must cover all %d entries of %s bytes each; found count %s (= %s) and element size %s: entries outside '
+                       'the range stay unsorted / are never found' % (c['callee'], ext, 'sizeof(%s)' % elem, show(n), n.get('v'), show(size)),
+                       why='%d entries of sizeof(%s)' % (ext, elem))
+        if f['name'] == 'XRayInitFromPath':
+            loops = [lp for lp in walk(f['body']) if lp.get('k') == 'ForStmt' and
+                     any(st_.get('k') == 'BinaryOperator' and st_.get('op') == '=' and show(st_['c'][0]).startswith('MendelArraySorted[')
+                         for st_ in walk(lp.get('body') or {}))]
+            okl = False
+            detail = 'no loop fills MendelArraySorted'
+            if loops:
+                lp = loops[0]
+                cond = lp.get('cond') or {}
+                iv = show((lp.get('cond') or {}).get('c', [{}])[0]) if cond.get('c') else None
+                bound = cond.get('k') == 'BinaryOperator' and cond.get('op') == '<' and cond['c'][1].get('v') == ext
+                init0 = full_range(lp, '') or any(b_.get('k') == 'BinaryOperator' and b_.get('op') == '=' and b_['c'][1].get('v') == 0
+                                                 for b_ in walk(lp.get('init') or {}))
+                inc = show(lp.get('inc') or {}).replace(' ', '') in ('%s++' % iv, '++%s' % iv)
+                fields = {}
+                for st_ in walk(lp['body']):
+                    if st_.get('k') == 'BinaryOperator' and st_.get('op') == '=' and show(st_['c'][0]).startswith('MendelArraySorted[%s].' % iv):
+                        fields[show(st_['c'][0]).split('.')[-1]] = show(st_['c'][1])
+                want = {'name': 'MendelArray[%s].name' % iv, 'Zatom': 'MendelArray[%s].Zatom' % iv}
+                okf = set(fields) == set(want) and all(want[k_] in fields[k_] for k_ in want)
+                okl = bound and init0 and inc and okf
+                detail = 'bound<%d:%s init0:%s step1:%s fields:%s' % (ext, bound, init0, inc, fields)
+            chk.decide(okl, 'mendel-twin-construction', f['unit'], f['name'], 'copy-loop', '%s:%d' % (f['rel'], f['ln']),
+                       'the loop that fills MendelArraySorted must copy name and Zatom of MendelArray[i] for every i in [0, %d): %s' % (ext, detail),
+                       why='copies (name, Zatom) of every entry')
+    chk.floor('qsort of the sorted Mendel table', nq, 1)
+    chk.floor('bsearch over the sorted Mendel table', nb, 2)
+
+
 def generated_mendel(prog, chk, gen):
     g = gen.get('MendelArraySorted')
     if not g:
@@ -499,17 +565,17 @@ def lister_shape(prog, chk, f, sp, U):
     chk.decide(bool(asg) and all(show(a['c'][1]) == cnt for a in asg), 'list-shape', U, f['name'], 'count-out', loc,
                'the count handed to the caller is %s, not %s' % ([show(a['c'][1]) for a in asg], cnt), why='*%s = %s' % (outp, cnt))
     # allocation (count+1) pointers
-    mall = calls_in(f['body'], 'malloc')
+    mall = calls_in(f['body'], 'malloc') + calls_in(f['body'], 'calloc')
     okm = False
     for m in mall:
         try:
-            r = N.to_rat(m['args'][0])
+            r = N.to_rat(m['args'][0]) if m.get('callee') == 'malloc' else N.to_rat(m['args'][0]) * N.to_rat(m['args'][1])
             want = N.to_rat({'k': 'UnaryExprOrTypeTraitExpr', 'argT': 'char *'}) * (Rat_sym(cnt) + Rat_const(1))
             okm = okm or r.equals(want)
         except NotInClass:
             pass
     chk.decide(okm, 'list-shape', U, f['name'], 'allocation', loc,
-               'result vector is not allocated as sizeof(char*)*(%s+1): %s' % (cnt, [show(m['args'][0]) for m in mall]),
+               'result vector is not allocated as sizeof(char*)*(%s+1): %s' % (cnt, [show(m) for m in mall]),
                why='sizeof(char *) * (%s + 1)' % cnt)
     loops = [n for n in walk(f['body']) if n['k'] == 'ForStmt']
     okl = False
